@@ -43,6 +43,11 @@ func C12(r *Run) *core.Report {
 		}
 		n++
 		ta, tb := normTable(a), normTable(b)
+		if extra[name] && (tableMentions(ta, "ext:") || tableMentions(tb, "ext:")) {
+			// results built by functions outside the module (a String method formatting the type's own name): the
+			// twins may legitimately print different text
+			continue
+		}
 		diff := tableDiff(ta, tb)
 		rep.Check(diff == "", "C12.W2", "Cache."+name+" == CacheOf."+name, r.P.Pos(a.Fn.Pos()), fmt.Sprintf("decision tables equal (%d key-state rows)", len(ta)), "the twins decide differently: "+diff)
 	}
@@ -69,6 +74,20 @@ func C12(r *Run) *core.Report {
 	}
 	c12W4(r, rep)
 	return rep
+}
+
+func tableMentions(t map[string][]string, what string) bool {
+	for k, os := range t {
+		if strings.Contains(k, what) {
+			return true
+		}
+		for _, o := range os {
+			if strings.Contains(o, what) {
+				return true
+			}
+		}
+	}
+	return false
 }
 
 func tableDiff(a, b map[string][]string) string {
